@@ -607,10 +607,12 @@ func (c *Context) GetFunction(name string) (*BuiltinFunction, error) {
 		return nil, fmt.Errorf(`"%s" is not a function`, name)
 	}
 	// Value exists, but unable to access in current scope
-	if obj.Value.Scopes&c.curMode == 0 {
+	// A subroutine used from several scopes may only call what every one of them allows,
+	// the same rule as for variables (CanAccessVariableInScope)
+	if obj.Value.Scopes&c.curMode != c.curMode {
 		return nil, fmt.Errorf(
 			`function "%s" is not available in scope %s\nSee reference documentation: %s`,
-			name, ScopeString(c.curMode), obj.Value.Reference,
+			name, ScopesString((obj.Value.Scopes&c.curMode)^c.curMode), obj.Value.Reference,
 		)
 	}
 
